@@ -555,24 +555,28 @@ class DocumentMapper:
             local_start = start_idx - first_real_span.start
             if local_start > 0:
                 idx_in_working = 0
-                _, right_run = self._split_run_at_index(working_runs[idx_in_working], local_start)
-                working_runs[idx_in_working] = right_run
+                run_offset = self._offset_in_run(first_real_span) + local_start
+                _, right_run = self._split_run_at_index(working_runs[idx_in_working], run_offset)
+                # every span of the split run that lies in the range now belongs to the right half
+                for i, s in enumerate([s for s in affected_spans if s.run is not None]):
+                    if s.run is first_real_span.run:
+                        working_runs[i] = right_run
                 dom_modified = True
-                start_split_adjustment = local_start
+                start_split_adjustment = run_offset
 
         # 2. End Split
         last_real_span = next((s for s in reversed(affected_spans) if s.run is not None), None)
 
         if last_real_span:
-            is_same_run = first_real_span is last_real_span
+            is_same_run = first_real_span.run is last_real_span.run
             run_to_split = working_runs[-1]
             overlap_end = min(last_real_span.end, end_idx)
-            local_end = overlap_end - last_real_span.start
+            local_end = self._offset_in_run(last_real_span) + (overlap_end - last_real_span.start)
 
             if is_same_run and start_split_adjustment > 0:
                 local_end -= start_split_adjustment
 
-            if 0 < local_end < len(run_to_split.text):
+            if 0 < local_end < len(get_run_text(run_to_split)):
                 left_run, _ = self._split_run_at_index(run_to_split, local_end)
                 working_runs[-1] = left_run
                 dom_modified = True
@@ -580,7 +584,16 @@ class DocumentMapper:
         if dom_modified:
             self._build_map()
 
-        return working_runs
+        # A run with several spans (markers around a line break) must be handed out once
+        unique_runs: List[Run] = []
+        for r in working_runs:
+            if not any(r._element is u._element for u in unique_runs):
+                unique_runs.append(r)
+        return unique_runs
+
+    def _offset_in_run(self, span: TextSpan) -> int:
+        """Text offset of a real span inside its run (a run with line breaks and markers has several spans)."""
+        return sum(len(s.text) for s in self.spans if s.run is span.run and s.start < span.start)
 
     def get_insertion_anchor(self, index: int) -> Optional[Run]:
         preceding = [s for s in self.spans if s.end == index]
@@ -593,7 +606,7 @@ class DocumentMapper:
             if span.run is None:
                 pass
             else:
-                offset = index - span.start
+                offset = self._offset_in_run(span) + (index - span.start)
                 left, _ = self._split_run_at_index(span.run, offset)
                 return left
 
@@ -611,23 +624,64 @@ class DocumentMapper:
         return None
 
     def _split_run_at_index(self, run: Run, split_index: int) -> Tuple[Run, Run]:
-        text = run.text
-        left_text = text[:split_index]
-        right_text = text[split_index:]
+        """
+        Splits a run at a text offset (same text semantics as get_run_text: w:t / w:delText characters,
+        w:tab, w:br and w:cr count as one character). Content is partitioned, never re-created:
+        tabs, breaks and zero-width content (drawings, references) stay on the side they occur on.
+        """
+        left_r = run._element
+        right_r = deepcopy(left_r)
 
-        run.text = left_text
-        new_r_element = deepcopy(run._element)
-        t_list = new_r_element.findall(qn("w:t"))
-        for t in t_list:
-            new_r_element.remove(t)
+        def _set_space(t_el):
+            txt = t_el.text or ""
+            if txt.strip() != txt:
+                t_el.set(qn("xml:space"), "preserve")
 
-        new_t = OxmlElement("w:t")
-        new_t.text = right_text
-        if right_text.strip() != right_text:
-            new_t.set(qn("xml:space"), "preserve")
-        new_r_element.append(new_t)
-        run._element.addnext(new_r_element)
-        new_run = Run(new_r_element, run._parent)
+        consumed = 0
+        left_children = [c for c in left_r if c.tag != qn("w:rPr")]
+        right_children = [c for c in right_r if c.tag != qn("w:rPr")]
+        for l_child, r_child in zip(left_children, right_children):
+            if l_child.tag in (qn("w:t"), qn("w:delText")):
+                text = l_child.text or ""
+                n = len(text)
+                if consumed + n <= split_index:
+                    right_r.remove(r_child)
+                elif consumed >= split_index:
+                    left_r.remove(l_child)
+                else:
+                    k = split_index - consumed
+                    l_child.text = text[:k]
+                    r_child.text = text[k:]
+                    _set_space(l_child)
+                    _set_space(r_child)
+                consumed += n
+            elif l_child.tag in (qn("w:tab"), qn("w:br"), qn("w:cr")):
+                if consumed < split_index:
+                    right_r.remove(r_child)
+                else:
+                    left_r.remove(l_child)
+                consumed += 1
+            else:
+                if consumed <= split_index:
+                    right_r.remove(r_child)
+                else:
+                    left_r.remove(l_child)
+
+        def _merge_adjacent_text(r_el):
+            prev = None
+            for child in list(r_el):
+                if prev is not None and child.tag == prev.tag and child.tag in (qn("w:t"), qn("w:delText")):
+                    prev.text = (prev.text or "") + (child.text or "")
+                    _set_space(prev)
+                    r_el.remove(child)
+                else:
+                    prev = child
+
+        _merge_adjacent_text(left_r)
+        _merge_adjacent_text(right_r)
+
+        left_r.addnext(right_r)
+        new_run = Run(right_r, run._parent)
         return run, new_run
 
     def get_context_at_range(self, start_idx: int, end_idx: int) -> Optional[TextSpan]:
